@@ -105,7 +105,7 @@ func presentChildUsed(w *World, r *Report, ctxs map[string]*CtxInfo, rule string
 						continue
 					}
 					if iff, ok := r2.(*ssa.If); ok {
-						if b := iff.Block(); len(b.Succs) == 2 && skipEmptyBlocks(b.Succs[0]) != skipEmptyBlocks(b.Succs[1]) {
+						if b := iff.Block(); len(b.Succs) == 2 && !sameDestination(b, b.Succs[0], b.Succs[1]) {
 							decides = true
 						}
 					} else {
@@ -281,4 +281,48 @@ func skipEmptyBlocks(b *ssa.BasicBlock) *ssa.BasicBlock {
 		b = b.Succs[0]
 	}
 	return b
+}
+
+// sameDestination: control leaving through a and through b arrives, past blocks that hold nothing but a jump, at the same block with
+// the same values for every variable merged there (the phis of that block do not tell the two ways apart).
+func sameDestination(from *ssa.BasicBlock, a, b *ssa.BasicBlock) bool {
+	arrive := func(p, x *ssa.BasicBlock) (pred, dest *ssa.BasicBlock) {
+		for i := 0; i < 8; i++ {
+			if len(x.Instrs) != 1 || len(x.Succs) != 1 {
+				return p, x
+			}
+			if _, ok := x.Instrs[0].(*ssa.Jump); !ok {
+				return p, x
+			}
+			p, x = x, x.Succs[0]
+		}
+		return p, x
+	}
+	pa, da := arrive(from, a)
+	pb, db := arrive(from, b)
+	if da != db {
+		return false
+	}
+	ia, ib := -1, -1
+	for i, p := range da.Preds {
+		if p == pa && ia < 0 {
+			ia = i
+		}
+		if p == pb {
+			ib = i
+		}
+	}
+	if ia < 0 || ib < 0 {
+		return false
+	}
+	for _, ins := range da.Instrs {
+		phi, ok := ins.(*ssa.Phi)
+		if !ok {
+			break
+		}
+		if phi.Edges[ia] != phi.Edges[ib] {
+			return false
+		}
+	}
+	return true
 }
